@@ -161,15 +161,13 @@ def run(ctx):
         for spec in all_specs(range(n), outliers=True):
             for clustered in (False, True):
                 for ns in (1, 2, 3):
-                    if ctx.quick and n == 3 and ns == 3 and clustered:
-                        continue
-                    variants = [("plain", 0)] if ctx.quick else [("plain", 0), ("relabel", 7)]
+                    variants = [("plain", 0)] if (ctx.quick and n == 3 and ns == 3) else [("plain", 0), ("relabel", 7)]
                     for var in variants:
                         names, cl, muts, point_of, cluster_of = inputs(n, clustered)
                         jobs.append({"n_points": n, "n_samples": ns, "names": names, "clusters": cl, "chains": {0: [(-1, spec, var)]}, "cmds": cmds, "want_trees": True, "outlier_prob": 0.1})
                         meta.append({"kind": "single", "spec": spec, "n": n, "ns": ns, "clustered": clustered, "muts": muts, "point_of": point_of, "cluster_of": cluster_of, "names": names, "cl": cl})
     if not ctx.quick:
-        for _ in range(60):
+        for _ in range(800):
             n = ctx.rng.randint(4, 5)
             spec = random_spec(ctx.rng, range(n), outlier_frac=0.2, max_block=2)
             clustered = ctx.rng.random() < 0.5
@@ -179,7 +177,7 @@ def run(ctx):
             meta.append({"kind": "single", "spec": spec, "n": n, "ns": ns, "clustered": clustered, "muts": muts, "point_of": point_of, "cluster_of": cluster_of, "names": names, "cl": cl})
     # multi-tree traces: consensus trees may contain clones without data
     specs3 = [s for s in all_specs(range(3), outliers=True) if s[0]]
-    for _ in range(30 if ctx.quick else 300):
+    for _ in range(120 if ctx.quick else 3000):
         k = ctx.rng.randint(2, 3)
         pool = [ctx.rng.choice(specs3) for _ in range(k)]
         clustered = ctx.rng.random() < 0.5
